@@ -64,6 +64,7 @@ type RawSrvParams struct {
 	Expire  bool        `json:"expire,omitempty"` // unary calls of the scenario carry a short deadline and have given up before the peer answers (C11: a peer that sends more than expected)
 	ResetOK bool        `json:"reset_ok,omitempty"` // a peer that fills an explicit OK status into every envelope, resets included: a reset still is a failure
 	NilKV   bool        `json:"nil_kv,omitempty"` // every metadata list the peer sends has a nil entry appended (by-reference links only)
+	SlowPeer bool       `json:"slow_peer,omitempty"` // the peer stops reading once every call is open: the callers' further sends sit in a rendezvous transport while the hostile answers arrive
 	Enum    int         `json:"enum,omitempty"` // >0: Seq is the idx-th sequence of that length in the bounded enumeration
 }
 
@@ -243,6 +244,16 @@ func genRawHostile(g *rand.Rand, tier string) any {
 	}
 	p.Stats = g.IntN(2) == 0
 	p.CloseErr = g.IntN(NumInjectedErrs)
+	if g.IntN(4) == 0 {
+		p.SlowPeer = true
+		p.Links[0] = LinkCfg{Cap: 0, Strict: true, Serialise: p.Links[0].Serialise}
+		for _, c := range p.Calls {
+			if c.Kind == KBidi || c.Kind == KCStream {
+				c.CSendN = 3
+				c.CProg = []Op{{K: 'f', A: []Op{{K: 's', N: 3}, {K: 'c'}}, B: []Op{{K: 'h'}, {K: 'R'}, {K: 't'}}}}
+			}
+		}
+	}
 	return p
 }
 
@@ -273,8 +284,23 @@ func execRawSrv(e *Env, pp any) {
 	method := map[int]string{}
 	rctx, rcancel := context.WithCancel(context.Background())
 	e.OnTeardown(rcancel)
+	stopReading := false
+	resumeReading := make(chan struct{})
 	e.Go("raw.reader", func() {
 		for {
+			histMu.Lock()
+			stop := stopReading
+			histMu.Unlock()
+			if stop {
+				select {
+				case <-resumeReading:
+					histMu.Lock()
+					stopReading = false
+					histMu.Unlock()
+				case <-rctx.Done():
+					return
+				}
+			}
 			r, err := b.Read(rctx)
 			if err != nil {
 				return
@@ -318,6 +344,12 @@ func execRawSrv(e *Env, pp any) {
 	if !all() {
 		e.Note("requests.not.all.out")
 	}
+	if p.SlowPeer {
+		histMu.Lock()
+		stopReading = true
+		histMu.Unlock()
+		e.Note("fault.peer.stops-reading")
+	}
 	if p.Expire {
 		// the unary callers give up (their deadline passes) before the peer says anything
 		e.Advance(2 * time.Second)
@@ -333,6 +365,7 @@ func execRawSrv(e *Env, pp any) {
 	sent := map[int][][]byte{}
 	okEnd := map[int]bool{} // calls that were sent an envelope ending them successfully
 	seqOf := map[int]int{}
+	streamOver := map[int]bool{}
 	e.Go("raw.writer", func() {
 		for _, rr := range p.Seq {
 			e.Pt("raw.send")
@@ -362,21 +395,32 @@ func execRawSrv(e *Env, pp any) {
 				}
 				e.Note("shape.nil-metadata-entry")
 			}
+			isStream := rr.To >= 0 && rr.To < len(p.Calls) && p.Calls[rr.To] != nil && p.Calls[rr.To].Kind != KUnary
+			over := isStream && streamOver[callID] // a reset or a trailer has ended this stream: nothing sent to it afterwards counts
 			if carriesBody(rr.Shape) {
 				seqOf[callID] = k + 1
-				histMu.Lock()
-				sent[callID] = append(sent[callID], MakePayload(callID, 'h', k, 12))
-				histMu.Unlock()
+				if !over {
+					histMu.Lock()
+					sent[callID] = append(sent[callID], MakePayload(callID, 'h', k, 12))
+					histMu.Unlock()
+				}
 			}
 			switch rr.Shape {
 			case RTrailerNoStatus, RTrailerOK, RTrailerBadMD, RUnaryOK, RUnaryExplicitOK, RBodyTrailer:
-				histMu.Lock()
-				okEnd[callID] = true
-				histMu.Unlock()
+				if !over {
+					histMu.Lock()
+					okEnd[callID] = true
+					histMu.Unlock()
+				}
 			}
-			if rr.Shape == RGarbageBody {
+			if rr.Shape == RGarbageBody && !over {
 				histMu.Lock()
 				sent[callID] = append(sent[callID], nil) // never decodes
+				histMu.Unlock()
+			}
+			if isStream && (env.Reset_ != nil || env.Trailer != nil) {
+				histMu.Lock()
+				streamOver[callID] = true
 				histMu.Unlock()
 			}
 			e.Note("shape." + rShapeNames[rr.Shape%numRShapes])
@@ -388,6 +432,13 @@ func execRawSrv(e *Env, pp any) {
 	reason := e.Settle()
 	if reason == Crashed || reason == StepLimit {
 		return
+	}
+	if p.SlowPeer {
+		// the peer reads again: whatever sat in the transport goes through
+		close(resumeReading)
+		if reason = e.Settle(); reason == Crashed || reason == StepLimit {
+			return
+		}
 	}
 	e.Note("nontrivial")
 	if p.Enum > 0 {
@@ -439,6 +490,19 @@ func execRawSrv(e *Env, pp any) {
 			}
 		}
 		histMu.Unlock()
+	}
+	if p.Hostile {
+		// a stream the peer has ended (reset or trailer, in any shape) is over for its
+		// caller too, while the connection lives: not only once it is closed
+		for _, id := range sim.Order {
+			r := sim.Calls[id]
+			histMu.Lock()
+			ov := streamOver[id]
+			histMu.Unlock()
+			if r.Spec.Kind != KUnary && ov && readsAll(r.Spec.CProg) && r.Started && !r.Returned {
+				e.Violate("C13", "hang", "stream-ended-by-peer."+kindNames[r.Spec.Kind], "call %d: the peer has ended the stream (reset or trailer) and the connection is alive; the caller's program has not finished\n%s", id, e.WaitGraph())
+			}
+		}
 	}
 	closed := false
 	if p.Close || p.Hostile {
